@@ -3,7 +3,10 @@
 TERMINATORS_LEFT = {"(", "[", ",", ";"}
 TERMINATORS_RIGHT = {")", "]", ",", ";"}
 SEPS = [(" ", 8), ("  ", 2), ("\t", 2), ("\n", 4), ("\r\n", 2), (" # note\n", 2),
-        ("#x\r\n", 1), ("\n\n  ", 1), (" \t ", 1), ("\n# c1\n# c2\n", 1)]
+        ("#x\r\n", 1), ("\n\n  ", 1), (" \t ", 1), ("\n# c1\n# c2\n", 1),
+        # empty comments and comments that look like code
+        ("#\n", 1), (" #\r\n", 1), ("#\n#\n", 1), ("\n#\n\n", 1),
+        (" # 'it''s' \"q\" // x // <<1>> \\\n", 1), ("# #\n", 1)]
 
 
 def spell_int(ch, n):
@@ -109,7 +112,7 @@ def relayout(ch, tokens, stats=None):
             changed += 1
         out.append(sep)
     tail = ch.choice(["", "", " ", "\n", ";", " ;\n", " # the end", "\r\n",
-                      "\n# bye\n", ";# x"])
+                      "\n# bye\n", ";# x", " #", "\n#", "#\n"])
     if stats is not None:
         stats["boundaries_changed"] = changed
         stats["literals_respelled"] = respelled
